@@ -18,7 +18,17 @@ type SynOpts struct {
 	NumDot    bool // allow member access directly on numeric literals (`1 .x`)
 	EscStr    bool // string literals may contain backslash escapes (\n \\ \" \')
 	Heavy     bool // favour nesting constructs (functions, blocks) over leaves
-	ASCII     bool // unused: all generated code is ASCII outside strings/comments
+	ASCII     bool // keep string and backtick bodies ASCII-only
+	Plain     bool // lexemes from the fixed pools only (no random identifiers, numbers, string bodies)
+}
+
+func isASCII(s string) bool {
+	for i := 0; i < len(s); i++ {
+		if s[i] >= 0x80 {
+			return false
+		}
+	}
+	return true
 }
 
 type Syn struct {
@@ -36,12 +46,18 @@ func NewSyn(r *rand.Rand, o SynOpts) *Syn { return &Syn{R: r, O: o} }
 
 func (g *Syn) fresh(prefix string) string {
 	g.nvar++
+	if !g.O.Plain && g.R.IntN(4) == 0 {
+		prefix = RandIdent(g.R) // keyword-like, long, $/_ names: any identifier followed by digits is an identifier
+	}
 	return fmt.Sprintf("%s%d", prefix, g.nvar)
 }
 
 func (g *Syn) ident() string {
 	if len(g.names) > 0 && g.R.IntN(3) == 0 {
 		return g.names[g.R.IntN(len(g.names))]
+	}
+	if !g.O.Plain && g.R.IntN(4) == 0 {
+		return RandIdent(g.R)
 	}
 	return identPool[g.R.IntN(len(identPool))]
 }
@@ -50,7 +66,17 @@ var numPool = []string{"0", "1", "2", "7", "10", "42", "255", "1000", "123456789
 	"1.5", "0.25", "3.14159", "10.0", "1e3", "2.5e-3", "1E+2", "7e0", "0.5E1",
 	"0x0", "0x1F", "0XAB", "0xdeadBEEF", "0b0", "0b101", "0B11", "0o7", "0o17", "0O755"}
 
+func (g *Syn) prop() string {
+	if !g.O.Plain && g.R.IntN(4) == 0 {
+		return RandIdent(g.R)
+	}
+	return propPool[g.R.IntN(len(propPool))]
+}
+
 func (g *Syn) num() *Node {
+	if !g.O.Plain && g.R.IntN(3) == 0 {
+		return Num(RandNum(g.R))
+	}
 	if g.R.IntN(3) == 0 {
 		return Num(fmt.Sprint(g.R.IntN(1000)))
 	}
@@ -62,6 +88,14 @@ var strPool = []string{"", "a", "hello", "x y", "it works", "A-Z", "100%", "semi
 var escStrPool = []string{`a\nb`, `back\\slash`, `q\"x`, `s\'y`, `end\\`, `\t`, `two \\ \\`}
 
 func (g *Syn) str() *Node {
+	if !g.O.Plain && g.R.IntN(2) == 0 {
+		for {
+			q := []byte{0, 0, '"', '\''}[g.R.IntN(4)]
+			if b := RandStrBody(g.R, q); !g.O.ASCII || isASCII(b) {
+				return &Node{K: KStr, Text: b, Quote: q}
+			}
+		}
+	}
 	if g.O.EscStr && g.R.IntN(2) == 0 {
 		return Str(escStrPool[g.R.IntN(len(escStrPool))])
 	}
@@ -70,7 +104,16 @@ func (g *Syn) str() *Node {
 
 var tplPool = []string{"", "t", "esc\\` tick  \n  after", "trail  \n  next", " lead\n\ttab\t\nend ", "multi word", "a+b", "x;y", "(p)", "{b}", "it's", "say \"hi\"", "// no", "line1\nline2", "a\n  b\n"}
 
-func (g *Syn) tpl() *Node { return &Node{K: KTpl, Text: tplPool[g.R.IntN(len(tplPool))]} }
+func (g *Syn) tpl() *Node {
+	if !g.O.Plain && g.R.IntN(2) == 0 {
+		for {
+			if b := RandTplBody(g.R); !g.O.ASCII || isASCII(b) {
+				return &Node{K: KTpl, Text: b}
+			}
+		}
+	}
+	return &Node{K: KTpl, Text: tplPool[g.R.IntN(len(tplPool))]}
+}
 
 func (g *Syn) atom() *Node {
 	for {
@@ -107,7 +150,7 @@ func (g *Syn) callLevel(d int) *Node {
 	case 0, 1, 2:
 		return Id(g.ident())
 	case 3, 4:
-		return Dot(g.callLevel(d-1), propPool[g.R.IntN(len(propPool))])
+		return Dot(g.callLevel(d-1), g.prop())
 	case 5:
 		return Idx(g.callLevel(d-1), g.Expr(d-1))
 	case 6, 7:
@@ -136,7 +179,7 @@ func (g *Syn) target(d int) *Node {
 	case 0, 1, 2:
 		return Id(g.ident())
 	case 3:
-		return Dot(g.callLevel(d-1), propPool[g.R.IntN(len(propPool))])
+		return Dot(g.callLevel(d-1), g.prop())
 	default:
 		return Idx(g.callLevel(d-1), g.Expr(d-1))
 	}
@@ -181,7 +224,7 @@ func (g *Syn) Expr(d int) *Node {
 	case x < 77:
 		return g.call(d)
 	case x < 84:
-		return Dot(g.callLevel(d-1), propPool[g.R.IntN(len(propPool))])
+		return Dot(g.callLevel(d-1), g.prop())
 	case x < 88:
 		return Idx(g.callLevel(d-1), g.Expr(d-1))
 	case x < 92:
@@ -197,14 +240,18 @@ func (g *Syn) Expr(d int) *Node {
 			switch g.R.IntN(4) {
 			case 0:
 				if !g.O.NoStrings {
-					k = Str(strPool[1+g.R.IntN(4)])
+					if k = Str(strPool[1+g.R.IntN(4)]); !g.O.Plain && g.R.IntN(2) == 0 {
+						k = g.str()
+					}
 					break
 				}
 				fallthrough
 			case 1:
-				k = Num(fmt.Sprint(g.R.IntN(100)))
+				if k = Num(fmt.Sprint(g.R.IntN(100))); !g.O.Plain && g.R.IntN(3) == 0 {
+					k = g.num()
+				}
 			default:
-				k = Id(propPool[g.R.IntN(len(propPool))])
+				k = Id(g.prop())
 			}
 			n.Kids = append(n.Kids, k, g.Expr(d-1))
 		}
